@@ -2,13 +2,54 @@
   rotov-driver: the model's executable definitions behind a line protocol.
   One request per line on stdin (`<handler> <args…>`), one answer per line on
   stdout.  Unknown or malformed requests answer `bad-op` — never a default.
+  `scalar …` is shared by C01/C10/C20; `cXX …` goes to `Driver/CXX.lean`.
 -/
 import Driver.Util
 import Driver.Scalar
+import Driver.C01
+import Driver.C02
+import Driver.C03
+import Driver.C04
+import Driver.C05
+import Driver.C06
+import Driver.C07
+import Driver.C08
+import Driver.C09
+import Driver.C10
+import Driver.C11
+import Driver.C12
+import Driver.C13
+import Driver.C14
+import Driver.C15
+import Driver.C16
+import Driver.C17
+import Driver.C18
+import Driver.C19
+import Driver.C20
 
 def dispatch (line : String) : String :=
   match Driver.words line with
   | "scalar" :: rest => Driver.Scalar.handle rest
+  | "c01" :: rest => Driver.C01.handle rest
+  | "c02" :: rest => Driver.C02.handle rest
+  | "c03" :: rest => Driver.C03.handle rest
+  | "c04" :: rest => Driver.C04.handle rest
+  | "c05" :: rest => Driver.C05.handle rest
+  | "c06" :: rest => Driver.C06.handle rest
+  | "c07" :: rest => Driver.C07.handle rest
+  | "c08" :: rest => Driver.C08.handle rest
+  | "c09" :: rest => Driver.C09.handle rest
+  | "c10" :: rest => Driver.C10.handle rest
+  | "c11" :: rest => Driver.C11.handle rest
+  | "c12" :: rest => Driver.C12.handle rest
+  | "c13" :: rest => Driver.C13.handle rest
+  | "c14" :: rest => Driver.C14.handle rest
+  | "c15" :: rest => Driver.C15.handle rest
+  | "c16" :: rest => Driver.C16.handle rest
+  | "c17" :: rest => Driver.C17.handle rest
+  | "c18" :: rest => Driver.C18.handle rest
+  | "c19" :: rest => Driver.C19.handle rest
+  | "c20" :: rest => Driver.C20.handle rest
   | "ping" :: _ => "pong"
   | _ => "bad-op"
 
